@@ -3,7 +3,7 @@ ExploreEval.tla; harness `kvh explore`)."""
 import json, os, time
 from . import common as C
 
-MODEL_CONSTANTS = dict(ProbeChecksIdentity='TRUE', FailureMarksDown='TRUE')
+MODEL_CONSTANTS = dict(ProbeChecksIdentity='TRUE', FailureMarksDown='TRUE', SendUnderLock='FALSE')
 PINNED_CONSTANTS = dict(ProbeChecksIdentity='FALSE', FailureMarksDown='FALSE')
 
 
@@ -95,6 +95,34 @@ def check(prop, tier, replay=None):
             violations.append(dict(sig=dict(f=v['sig']['f']),
                                    replay=dict(property=prop, schedule=r['schedule'], events=r['events'], violation=v['sig']),
                                    text='history %d: %s' % (v['id'], json.dumps(v['sig'], sort_keys=True))))
+        # the lock / queue protocol: ExploreLock.tla (deadlock freedom and termination under fairness), and the flood run
+        el = C.tlc(sd, 'ExploreLock', 'el.cfg', workers=2, timeout=1800, deadlock=True, cfg_text='''CONSTANTS
+  Workers = {1, 2}
+  QueueCap = %d
+  NLookups = %d
+  NRetries = 2
+  SendUnderLock = %s
+SPECIFICATION Fair
+INVARIANT TypeOK
+PROPERTY EventuallyDone
+CHECK_DEADLOCK TRUE
+''' % ((2, 6, MODEL_CONSTANTS['SendUnderLock']) if tier == 'quick' else (3, 9, MODEL_CONSTANTS['SendUnderLock'])))
+        C.require_ok(el, 'ExploreLock')
+        flood_f = os.path.join(sd, 'flood.ndjson')
+        floods = []
+        if not replay:
+            for wk in ([2] if tier == 'quick' else [1, 2, 8]):
+                part = flood_f + '.%d' % wk
+                C.run([kvh, 'explore-flood', '-out', part, '-workers', str(wk), '-extra', str(40 if tier == 'quick' else 300)], timeout=600)
+                floods += C.read_ndjson(part)
+        C.write_ndjson(flood_f, floods)
+        if floods:
+            evf = C.tlc(sd, 'ExploreLockEval', 'evalf.cfg', cfg_text='', workers=1, timeout=600)
+            C.require_ok(evf, 'ExploreLockEval')
+            for v in C.read_ndjson(os.path.join(sd, 'floodviol.ndjson')):
+                o = floods[v['idx'] - 1]
+                violations.append(dict(sig=dict(f=v['which']), replay=dict(property=prop, flood=o, violation=v['which']),
+                                       text='flood of %d first lookups (%d workers): %s: %s' % (o['n'], o['workers'], v['which'], json.dumps(o, sort_keys=True))))
         notes = sum(len(r.get('notes') or []) for r in recs)
         kinds = {}
         for r in recs:
@@ -104,7 +132,7 @@ def check(prop, tier, replay=None):
                    traces_validated_against_impl=len(recs) - len(set(v['id'] for v in viol)),
                    samples=[dict(schedule=r['schedule'], recorded_events=[{k: e[k] for k in ('seq', 'ev', 't', 'ok', 'health', 'series', 'total', 'set')} for e in r['events']]) for r in recs[:1]],
                    evaluations=len(recs), distinct_nontrivial=stats.get('nontrivial', 0), events_recorded=kinds,
-                   schedule_steps_the_code_did_not_follow=notes,
+                   schedule_steps_the_code_did_not_follow=notes, flood_runs=floods, lock_model_states=el['distinct'],
                    rule='one evaluation = one TLC-simulated schedule (lookups, discovery updates that remove / keep / re-add targets, probe completions with '
                         'chosen result and order, retry timers) executed on the real Explore with 2 workers, blocking HTTP targets and a %d ms retry interval; '
                         'non-trivial: the history contains a failed probe (counted by TLC)' % 30,
